@@ -642,27 +642,28 @@ class Engine:
             return ('ptr',)
         return None
 
-    def load(self, st, p, ty, mod, where):
+    def load(self, st, p, ty, mod, where, g0=None):
         if isinstance(p, GPtr):
             res = None
             for g, q in p.cases:
+                gg = g if g0 is None else z3.And(g0, g)
                 if q.obj is None:
-                    self.add_obl('null-deref', st, g, 'load through null pointer', where)
+                    self.add_obl('null-deref', st, gg, 'load through null pointer', where)
                     continue
-                v = self.load(st, q, ty, mod, where) if True else None
+                v = self.load(st, q, ty, mod, where, gg)     # access obligations of this case hold only under its guard
                 res = v if res is None else ite(g, v, res)
             if res is None:
                 raise Unsupported('load through null only')
             return res
         if p.obj is None:
-            self.add_obl('null-deref', st, z3.BoolVal(True), 'load through null pointer', where)
+            self.add_obl('null-deref', st, g0 if g0 is not None else z3.BoolVal(True), 'load through null pointer', where)
             return self.fresh_of(ty, mod)
         if isinstance(p.obj, tuple):
             raise Unsupported('load from %s' % (p.obj,))
         o = st.mem.o[p.obj]
         kind = self.kind_of_type(ty, mod)
         if isinstance(o, ArrayObj):
-            self.bounds(st, p, o, 'load', where)
+            self.bounds(st, p, o, 'load', where, g0)
             if o.kind[0] == 'ptr':
                 i = z3.simplify(p.off)
                 if not z3.is_bv_value(i):
